@@ -36,3 +36,5 @@ def SteelVerif.C01C.dead_code_never_runs_core_else := @SteelVerif.C01C.dead_code
 #print axioms SteelVerif.C01BC.reader_only_modelled
 #print axioms SteelVerif.C01BC.extended_opcodes_exist
 #print axioms SteelVerif.C01BC.extended_call_opcodes_dispatched
+#print axioms SteelVerif.C01BC.specialised_opcodes_exist
+#print axioms SteelVerif.C01BC.specialised_opcodes_dispatched
